@@ -38,6 +38,7 @@ def program(draw, tier="quick"):
     use_free = draw(st.sampled_from([False, False, True]))
     free_sizes = [draw(st.sampled_from([1, 2, 3])) for _ in range(2)]
     nodes = []
+    narrow_case = draw(st.integers(0, 3)) == 0  # every plain node of the diagram has a narrow integer type
     for _ in range(n_nodes):
         special = draw(st.sampled_from([None] * 6 + ["eps", "delta"]))
         if special == "eps":
@@ -53,7 +54,12 @@ def program(draw, tier="quick"):
         fs = free_sizes[2 - nfree :] if nfree else []
         total = C.prod(fs + sizes)
         ent = draw(st.lists(st.integers(-3, 3), min_size=total, max_size=total))
-        nodes.append({"free": fs, "sizes": sizes, "cov": cov, "ent": ent})
+        node = {"free": fs, "sizes": sizes, "cov": cov, "ent": ent}
+        if narrow_case:
+            # a narrow integer type with entries whose products leave its range (the sums are still far inside int64)
+            node["dt"] = draw(st.sampled_from(["int8", "int16", "int16", "int32", "int32", "uint8", "uint16", "float32"]))
+            node["mul"] = draw(st.sampled_from([1, 40, 300, 40000]))
+        nodes.append(node)
     metas = [node_meta(n) for n in nodes]
     # edges, guided by the model so that most programs are valid
     unused = [(list(m["cov"]), list(m["con"])) for m in metas]
@@ -95,6 +101,16 @@ def build_node(n):
     if "delta" in n:
         return KroneckerDelta(*n["delta"])
     arr = np.array(n["ent"], dtype=int).reshape(list(n["free"]) + list(n["sizes"]))
+    if n.get("dt"):
+        if n["dt"] not in ("int8", "int16", "int32", "uint8", "uint16", "float32") or n.get("mul") not in (1, 40, 300, 40000):
+            raise Skip("malformed")
+        arr = arr * n["mul"]
+        if n["dt"].startswith("u"):
+            arr = np.abs(arr)
+        info = np.iinfo(n["dt"]) if n["dt"] != "float32" else None
+        if info is not None and (arr.max(initial=0) > info.max or arr.min(initial=0) < info.min):
+            arr = arr // n["mul"]  # entries must be representable in the requested type
+        arr = arr.astype(n["dt"])
     return Tensor(arr, covariant=n["cov"], tensor_rank=len(n["sizes"]))
 
 
@@ -249,22 +265,33 @@ def run_program(case):
         return [Fail("NO_RAISE", "diagram:error-expected", "model predicts TensorComputationError")]
     _, order, pairs, unused = mres
     expr, (nf, ncov, ncon) = reference(metas, arrays, order, pairs, unused)
-    ref = np.einsum(expr, *[arrays[i] for i in order])
-    ref2 = loops_eval(expr, [arrays[i] for i in order])
+    narrow = any(n.get("dt") for n in nodes)
+    if narrow:
+        # exact reference in Python integers; results that do not fit into int64 comfortably are outside the domain
+        ref = np.einsum(expr, *[np.asarray(arrays[i]).astype(np.int64).astype(object) if arrays[i].dtype.kind in "iu" else arrays[i].astype(np.float64) for i in order])
+        ref = np.asarray(ref)
+        if ref.dtype == object:
+            if max((abs(int(x)) for x in np.ravel(ref)), default=0) >= 2**62:
+                raise Skip("result outside int64")
+            ref = ref.astype(np.int64)
+        ref2 = None
+    else:
+        ref = np.einsum(expr, *[arrays[i] for i in order])
+        ref2 = loops_eval(expr, [arrays[i] for i in order])
     if ref2 is not None and not np.array_equal(ref, ref2):
         raise HarnessError(f"reference einsum and loops disagree for {expr}")
     selfloop = any(s == t for s, t in edges)
     tag = ":selfloop" if selfloop else ""
     ok = ck.check(res.array.shape == ref.shape, "diagram:shape" + tag, (res.array.shape, ref.shape, expr))
     if ok:
-        ck.check(np.array_equal(res.array, ref), "diagram:values" + tag, expr)
+        ck.check(np.array_equal(res.array, ref) if not any(n.get("dt") == "float32" for n in nodes) else np.allclose(res.array, ref, rtol=1e-5), "diagram:values" + tag + (":narrow-dtype" if narrow else ""), expr)
     ck.check(res.tensor_shape == (ncov, ncon), "diagram:tensor_shape" + tag, (res.tensor_shape, (ncov, ncon)))
     ck.check(sorted(res._covariant_indices) == list(range(nf, nf + ncov)), "diagram:cov-first" + tag, sorted(res._covariant_indices))
     ck.check(sorted(res._contravariant_indices) == list(range(nf + ncov, nf + ncov + ncon)), "diagram:contra-last" + tag, "")
     ck.check(res.free_indices == nf, "diagram:free" + tag, res.free_indices)
     # operands untouched
     for o, a, n in zip(objs, arrays, nodes):
-        if "ent" in n:
+        if "ent" in n and not n.get("dt"):
             ck.check(np.array_equal(o.array.ravel(), np.array(n["ent"])), "diagram:operand-mutated")
     return ck.result()
 
@@ -288,6 +315,8 @@ def prog_labels(c):
         out.append("collection-axes")
     if any("eps" in n or "delta" in n for n in c["nodes"]):
         out.append("eps/delta-node")
+    if any(n.get("dt") and n.get("mul", 1) >= 300 for n in c["nodes"]):
+        out.append("narrow-integer-type-large-entries")
     return out
 
 
@@ -504,7 +533,7 @@ def run_epseps(case):
 LAWS = [
     Law("diagram_program", lambda tier: program(tier), run_program, prog_nontrivial, prog_labels, {"quick": 3000, "thorough": 60000},
         "generated diagram programs vs reference bookkeeping model", shard=4000,
-        mandatory=("self-loop", "repeated-edge", "collection-axes", "predicted-error", "valid")),
+        mandatory=("self-loop", "repeated-edge", "collection-axes", "predicted-error", "valid", "narrow-integer-type-large-entries")),
     Law("surface_forms", lambda tier: surface(tier), run_surface, lambda c: True, lambda c: [c["form"]], {"quick": 800, "thorough": 10000},
         "a*b, b.__rmul__(a), a**k, a.tensor_product(b), a*ndarray as their defining programs", shard=4000),
     Law("epsilon_table", None, run_eps, enumerate=eps_cases, exhaustive=lambda tier: {"name": "all entries of LeviCivitaTensor(n), n=1..%d, both variances" % (7 if tier == "thorough" else 6), "size": sum(n**n for n in range(1, 8 if tier == "thorough" else 7)) * 2, "exhaustive": True},
